@@ -88,7 +88,15 @@ func execOp(line string) {
 	case "defmsg":
 		emit(line, safely(func() string {
 			id := uint32(atoiU(t[2]))
-			m := findMsg(t[1], id)
+			var m message.Message
+			for _, c := range getDialect(t[1]).Messages {
+				if c.GetID() == id {
+					if name, _ := structBody(c); name == t[3] {
+						m = c
+						break
+					}
+				}
+			}
 			if m == nil {
 				return "no-such-message"
 			}
@@ -154,6 +162,18 @@ func execOp(line string) {
 
 	case "swrite":
 		emit(line, safely(func() string { return implSwrite(t) }))
+
+	case "etext":
+		emit(line, safely(func() string { return implEtext(t) }))
+
+	case "dinit":
+		emit(line, safely(func() string { return implDinit(t) }))
+
+	case "dget":
+		emit(line, safely(func() string { return implDget(t) }))
+
+	case "dtype":
+		emit(line, safely(func() string { return implDtype(t) }))
 
 	case "hop":
 		emit(line, safely(func() string { return implHop(t) }))
